@@ -41,9 +41,9 @@ for d in $SRC/C*/_out/[0-9]*; do
   if ! git -C $WT apply --3way "$d/patch.diff" 2>/dev/null && ! git -C $WT apply "$d/patch.diff"; then echo "$id: PATCH-DOES-NOT-APPLY"; continue; fi
   git -C $WT reset -q 2>/dev/null
   if ! (cd $WT && go build ./... && go build -tags verif ./...) > $WT/_build.log 2>&1; then echo "$id: BUILD-FAILS"; continue; fi
-  base=$(REPO_DIR=$WT /tmp/mut/baseline.sh | tail -1)
+  base=$(REPO_DIR=$WT /verif/tools/baseline_dir.sh | tail -1)
   bm=$(echo "$base" | grep -o 'baseline_missing=[0-9]*' | cut -d= -f2)
-  if [ "$bm" != "0" ]; then base=$(REPO_DIR=$WT /tmp/mut/baseline.sh | tail -1); bm=$(echo "$base" | grep -o 'baseline_missing=[0-9]*' | cut -d= -f2); fi
+  if [ "$bm" != "0" ]; then base=$(REPO_DIR=$WT /verif/tools/baseline_dir.sh | tail -1); bm=$(echo "$base" | grep -o 'baseline_missing=[0-9]*' | cut -d= -f2); fi
   run_demo $d; mr=$?
   verdict=REJECT
   if [ $pr -eq 0 ] && [ $mr -ne 0 ] && [ $mr -ne 99 ] && [ "$bm" = "0" ]; then verdict=CONFIRMED; fi
